@@ -288,6 +288,7 @@ pub fn integ_decl() -> impl Strategy<Value = IntegDecl> {
         2 => Just(IntegDecl::DigestOfOtherBlob),
         1 => Just(IntegDecl::WrongTail),
         1 => Just(IntegDecl::CaseToggled),
+        1 => Just(IntegDecl::MultiWeakerOfOther),
     ]
 }
 
@@ -298,6 +299,7 @@ pub fn integ_decl_matching() -> impl Strategy<Value = IntegDecl> {
         3 => Just(IntegDecl::Correct),
         1 => Just(IntegDecl::MultiWithCorrect),
         1 => Just(IntegDecl::MultiTwoAlgos),
+        1 => Just(IntegDecl::MultiWeakerOfOther),
     ]
 }
 
